@@ -21,6 +21,9 @@ pub enum SK {
     Q1Loop(u8),
     /// QoS 1 with a caller-chosen packet id
     Q1Id(u16),
+    /// two QoS 1 send futures created back to back and only then polled together (`join`): both are "awaiting
+    /// sends" of one task, e.g. `join!(a.send_at_least_once(..), b.send_at_least_once(..))`
+    Q1Join,
     /// QoS 2: obtain receipt, release and await completion
     Q2Rel,
     /// QoS 2: obtain receipt, drop it
@@ -274,6 +277,17 @@ async fn run_sender_v5(sink: ntex_mqtt::v5::MqttSink, kind: SK, j: usize, app: A
                 Err(e) => format!("err:{e:?}"),
             });
         }
+        SK::Q1Join => {
+            let f1 = sink.publish(bs("t")).send_at_least_once(by(&[tag(j)]));
+            let f2 = sink.publish(bs("t")).send_at_least_once(by(&[tag(j)]));
+            let (r1, r2) = ntex_util::future::join(f1, f2).await;
+            for r in [r1, r2] {
+                push(match &r {
+                    Ok(_) => "ok".into(),
+                    Err(e) => format!("err:{e:?}"),
+                });
+            }
+        }
         SK::Q1 | SK::Q1Loop(_) | SK::Q1Id(_) => {
             let n = if let SK::Q1Loop(n) = kind { n } else { 1 };
             for _ in 0..n {
@@ -500,6 +514,17 @@ async fn run_sender_v3(sink: ntex_mqtt::v3::MqttSink, kind: SK, j: usize, app: A
                 Ok(a) => format!("ok:{a:?}"),
                 Err(e) => format!("err:{e:?}"),
             });
+        }
+        SK::Q1Join => {
+            let f1 = sink.publish(bs("t")).send_at_least_once(by(&[tag(j)]));
+            let f2 = sink.publish(bs("t")).send_at_least_once(by(&[tag(j)]));
+            let (r1, r2) = ntex_util::future::join(f1, f2).await;
+            for r in [r1, r2] {
+                push(match &r {
+                    Ok(_) => "ok".into(),
+                    Err(e) => format!("err:{e:?}"),
+                });
+            }
         }
         SK::Q1 | SK::Q1Loop(_) | SK::Q1Id(_) => {
             let n = if let SK::Q1Loop(n) = kind { n } else { 1 };
